@@ -218,3 +218,67 @@ Proof.
   destruct (Hc c eq_refl) as (A & B & C).
   apply N.eqb_neq in A, B, C. rewrite A, B, C. reflexivity.
 Qed.
+
+(* ---------------------------------------------------------------- the terminator *)
+(* The three scanning primitives read the text from tok->p on.  Their result does not depend on
+   what is stored after the terminating NUL, and the token window they deliver lies before it. *)
+Definition nulfree (s : str) : bool := forallb (fun c => negb (N.eqb c 0)) s.
+
+Lemma span_stop (f : N -> bool) : f 0%N = false -> forall a junk,
+  span f (a ++ 0%N :: junk) = span f a.
+Proof.
+  intros H0. induction a as [|c a IH]; intros junk; cbn [app span]; [rewrite H0; reflexivity|].
+  destruct (f c); [rewrite IH|]; reflexivity.
+Qed.
+
+Lemma firstn_app_le {A} n (a b : list A) : n <= List.length a -> firstn n (a ++ b) = firstn n a.
+Proof. intros H. rewrite firstn_app. replace (n - List.length a) with 0 by lia. cbn. apply app_nil_r. Qed.
+
+Theorem lex_from_terminator : forall s junk, nulfree s = true ->
+  lex_from (s ++ 0%N :: junk) = lex_from s.
+Proof.
+  induction s as [|c s IH]; intros junk Hn; [reflexivity|].
+  cbn [nulfree forallb] in Hn. apply andb_true_iff in Hn as [Hc Hs]. apply negb_true_iff in Hc.
+  cbn [app lex_from].
+  destruct (is_ident_first c).
+  { rewrite (span_stop is_ident_next eq_refl).
+    change (c :: s ++ 0%N :: junk) with ((c :: s) ++ 0%N :: junk).
+    rewrite firstn_app_le; [reflexivity|]. cbn [List.length]. pose proof (span_props is_ident_next s). lia. }
+  destruct (is_space c); [rewrite (IH junk Hs); reflexivity|].
+  destruct (is_digit c).
+  { destruct s as [|c1 s2]; [reflexivity|]. cbn [app].
+    destruct (N.eqb c1 120 || N.eqb c1 88)%bool; cbn [skipn].
+    - rewrite (span_stop is_hex_digit eq_refl). reflexivity.
+    - change (c1 :: s2 ++ 0%N :: junk) with ((c1 :: s2) ++ 0%N :: junk).
+      rewrite (span_stop is_hex_digit eq_refl). reflexivity. }
+  assert (Hd : match s ++ 0%N :: junk with
+               | c1 :: c2 :: _ => N.eqb c1 c_dot && N.eqb c2 c_dot
+               | _ => false
+               end = match s with c1 :: c2 :: _ => N.eqb c1 c_dot && N.eqb c2 c_dot | _ => false end).
+  { destruct s as [|c1 [|c2 s3]]; cbn [app]; [destruct junk; reflexivity | apply andb_false_r | reflexivity]. }
+  rewrite Hd. destruct (N.eqb c c_dot && _)%bool; [reflexivity|]. rewrite Hc. reflexivity.
+Qed.
+
+Theorem first_nonspace_terminator : forall s junk,
+  first_nonspace (s ++ 0%N :: junk) = first_nonspace s.
+Proof.
+  induction s as [|c s IH]; intros junk; [reflexivity|]. cbn [app first_nonspace].
+  destruct (is_space c); [apply IH | reflexivity].
+Qed.
+
+Theorem ncommas_terminator : forall s junk d acc,
+  ncommas (s ++ 0%N :: junk) d acc = ncommas s d acc.
+Proof.
+  induction s as [|c s IH]; intros junk d acc; [reflexivity|]. cbn [app ncommas].
+  destruct (N.eqb c c_comma); [apply IH|].
+  destruct (N.eqb c c_lpar); [apply IH|].
+  destruct (N.eqb c c_rpar); [destruct d; [reflexivity | apply IH]|].
+  destruct (N.eqb c 0); [reflexivity | apply IH].
+Qed.
+
+(* the token window [skipped, skipped + size) stays inside the text *)
+Theorem lex_window : forall s k n kd, lex_from s = (k, n, kd) -> k + n <= List.length s.
+Proof.
+  intros s k n kd H. destruct (lex_from_props _ _ _ _ H) as (A & _ & [B _] & _).
+  rewrite skipn_length in B. lia.
+Qed.
